@@ -26,7 +26,14 @@ def cases(rng, tier):
                 units.add((s, e, lab))
             spec[name] = [list(u) for u in sorted(units)]
         yield {"kind": kind, "continuum": spec, "delimiter": rng.choice([",", ";", "\t", "|"]), "discard": k % 2 == 0,
-               "tier_as_label": k % 3 == 0, "select": k % 4 == 0, "seed": rng.randint(0, 10 ** 6)}
+               "tier_as_label": k % 3 == 0, "select": k % 4 == 0, "select_mode": ["none", "first", "empty", "absent"][(k // 6) % 4],
+               "seed": rng.randint(0, 10 ** 6)}
+
+
+def selection(inp, tiers):
+    """the tier selection of a case: none (every tier), the first tier, an EMPTY selection (no tier at all), a tier the file does not have"""
+    mode = inp.get("select_mode") or ("first" if inp.get("select") else "none")
+    return {"none": None, "first": tiers[:1], "empty": [], "absent": ["no such tier"]}[mode]
 
 
 def view(c):
@@ -77,7 +84,7 @@ def check(inp):
             tg = textgrid.TextGrid(minTime=0, maxTime=100)
             want = set()
             tiers = sorted(spec)
-            sel = tiers[:1] if inp["select"] else None
+            sel = selection(inp, tiers)
             for tname in tiers:
                 tier = textgrid.IntervalTier(name=tname, minTime=0, maxTime=100)
                 t = 0.0
@@ -104,7 +111,7 @@ def check(inp):
             eaf = pympi.Eaf()
             want = set()
             tiers = sorted(spec)
-            sel = tiers[:1] if inp["select"] else None
+            sel = selection(inp, tiers)
             for tname in tiers:
                 eaf.add_tier(tname)
                 for (s, e, l) in spec[tname]:
